@@ -17,6 +17,8 @@ struct Tup(i32, String);
 #[derive(Serialize, Deserialize, PartialEq, Debug, Clone)]
 struct St { a: i32, b: Option<String> }
 #[derive(Serialize, Deserialize, PartialEq, Debug, Clone)]
+struct Sv { title: String, tags: Vec<u32>, m: BTreeMap<String, i32>, u: (), o: Option<Vec<u8>> }
+#[derive(Serialize, Deserialize, PartialEq, Debug, Clone)]
 struct Rf { right: i32, rows: u8, r#ref: bool, a_r: i32 }
 #[derive(Serialize, Deserialize, PartialEq, Debug, Clone)]
 enum Ev { Rect { right: i32, radius: i32 } }
@@ -125,6 +127,11 @@ fn corpus() -> Vec<Value> {
     // long strings with multi-byte characters at every offset around 32 / 48 / 64 / 128 (messages that quote the offending value must not cut inside a character)
     for pad in [30usize, 31, 45, 46, 47, 48, 62, 63, 64, 126, 127, 255] { for ch in ["\u{e9}", "\u{20ac}", "\u{1f600}"] { out.push(Value::from(format!("{}{}{}", "a".repeat(pad), ch.repeat(3), "z".repeat(40)))); } }
     out.push(Value::symbol(format!("{}\u{e9}\u{e9}", "s".repeat(47)))); out.push(Value::keyword(format!("{}\u{20ac}", "k".repeat(47))));
+    // structs whose fields hold empty collections / unit (the serializer writes them as (name) - an entry with an empty cdr)
+    let f = |n: &str, d: Value| Value::cons(sym(n), d);
+    out.push(list(vec![f("title", Value::from("hello")), f("tags", Value::Null), f("m", Value::Null), f("u", Value::Null), f("o", Value::Null)]));
+    out.push(list(vec![f("title", Value::from("")), f("tags", list(vec![Value::from(1)])), f("m", list(vec![Value::cons(Value::from("k"), Value::from(1))])), f("u", Value::Null), f("o", list(vec![Value::Null]))]));
+    out.push(list(vec![f("title", Value::from("x")), f("tags", Value::Vector(vec![].into())), f("m", Value::Null), f("u", Value::Nil), f("o", list(vec![list(vec![Value::from(1)])]))]));
     out.push(Value::Vector(vec![Value::from(7)].into()));
     out.push(Value::Vector(vec![].into()));
     out.push(Value::append(vec![Value::from(1), Value::from(2)], Value::from(3)));
@@ -180,5 +187,5 @@ fn check18(case: &str) -> Option<String> {
         .or_else(|| one::<Vec<u32>>(&v, "Vec<u32>")).or_else(|| one::<Option<u16>>(&v, "Option<u16>")).or_else(|| one::<(u32, i16)>(&v, "(u32, i16)")).or_else(|| one::<Option<Option<i32>>>(&v, "Option<Option<i32>>")).or_else(|| one::<BTreeMap<u32, i8>>(&v, "BTreeMap<u32, i8>")).or_else(|| one::<u64>(&v, "u64")).or_else(|| one::<f32>(&v, "f32")).or_else(|| one::<f64>(&v, "f64")).or_else(|| one::<Vec<f32>>(&v, "Vec<f32>"))
         .or_else(|| one::<char>(&v, "char")).or_else(|| one::<String>(&v, "String")).or_else(|| one::<Option<i32>>(&v, "Option<i32>")).or_else(|| one::<Vec<i32>>(&v, "Vec<i32>"))
         .or_else(|| one::<(i32, i32)>(&v, "(i32, i32)")).or_else(|| one::<BTreeMap<String, i32>>(&v, "BTreeMap<String, i32>")).or_else(|| one::<()>(&v, "()")).or_else(|| one::<Unit>(&v, "Unit"))
-        .or_else(|| one::<New>(&v, "New")).or_else(|| one::<Tup>(&v, "Tup")).or_else(|| one::<St>(&v, "St")).or_else(|| one::<E>(&v, "E")).or_else(|| one::<Vec<Option<E>>>(&v, "Vec<Option<E>>"))
+        .or_else(|| one::<Sv>(&v, "Sv")).or_else(|| one::<New>(&v, "New")).or_else(|| one::<Tup>(&v, "Tup")).or_else(|| one::<St>(&v, "St")).or_else(|| one::<E>(&v, "E")).or_else(|| one::<Vec<Option<E>>>(&v, "Vec<Option<E>>"))
 }
